@@ -155,8 +155,11 @@ static Result run_bonded(const json &c) {
   Geo g = geometry(pl);
   // ---- domain (DESIGN C07): away from the documented singular geometries, bonds unambiguous under minimum image
   bool dom = g.ok;
+  // (the angle itself is smooth up to the collinear geometries: 0.4 degrees away for IAngle; the dihedral also divides by
+  // the sines of its two bond angles and keeps 3 degrees)
+  const ld thmin = nb == 3 ? 0.4L : 3.0L;
   for (ld th : g.theta)
-    if (!(th > 3 && th < 177)) dom = false;
+    if (!(th > thmin && th < 180 - thmin)) dom = false;
   if (nb == 4 && !(fabsl(g.phi) > 3 && fabsl(g.phi) < 177)) dom = false;
   if (dom && !(g.Lmax / g.Lmin <= 10.5L && g.Lmin >= 5e-4L)) dom = false;
   if (dom && box.periodic) {
